@@ -5,26 +5,42 @@
   caches of scope.py made explicit, `runQueries`), for EVERY graph — in particular every
   graph the real extractor can build — and every history of queries, of any length.
 
-  STATUS.  `C04_history_stmt` / `C04_two_histories_stmt` (the property at full strength: every
-  graph, every history) are FALSE of the model, also after the rework of scope.py
+  STATUS: PARTIAL.  `C04_history_stmt` / `C04_two_histories_stmt` (the property at full strength:
+  every graph, every history) are FALSE of the model, also after the rework of scope.py
   (`loop_tracked`): SuppModel/Witness/C04.lean.  A table T that is final (`deps = ∅`) may have
   been computed by RESOLVING a loop l inside a nested resolution of another loop l'' whose cut
   edge l met; l's own table then depends on that resolution of l'' and dies with it, while T
   stays final (a loop's own resolution is dropped from the deps it is stored with).  When l is
   resolved again later, T is reused INSIDE that resolution, where the pure evaluator sees l's
   back edge cut.
-  Proved instead, for every graph and every history:
-    * `C04_pure_deterministic`, `C04_memo_total` (as first stated);
-    * `C04_checked_history`, `C04_checked_two_histories`: the CHECKED evaluator of
-      SuppModel/Flow/Checked.lean has the property outright.  It is Memo.lean's evaluator
-      (`C04_checked_le`) which additionally records, per cached table, the loops that were
-      resolved to compute it and GIVES UP instead of reusing a table inside a resolution of one of
-      those loops;
+
+  (1) PROVED FOR EVERY GRAPH AND EVERY HISTORY, no hypothesis:
+    * `C04_pure_deterministic`: the pure evaluator's answer does not depend on the fuel;
+    * `C04_memo_total`: the real evaluator (Memo.lean) answers whenever the pure one does, same
+      fuel (nothing about WHICH answer);
+    * `C04_checked_history`, `C04_checked_two_histories`: the CHECKED evaluator
+      (SuppModel/Flow/Checked.lean, `runQueriesChecked`) has the property outright.  It is
+      Memo.lean's evaluator (`C04_checked_le`: same tables, same states, whenever it answers)
+      which additionally records, per cached table, the loops that were resolved to compute it
+      and GIVES UP instead of reusing a table inside a resolution of one of those loops;
+    * `C04_exact_history`, `C04_exact_total`: the EXACT evaluator (`runQueriesExact`: same
+      book-keeping, but it recomputes instead of giving up) gives the pure evaluator's answers
+      and answers whenever the pure one does — a memoised reference to compare against.
+  (2) PROVED UNDER A PER-RUN HYPOTHESIS the driver evaluates (decidable, one list comparison):
     * `C04_history_partial`, `C04_two_histories_partial`: the property for every answer of the
-      real evaluator that the checked one confirms — a decidable hypothesis the driver evaluates
-      per run.  It holds on graphs whose loops are not nested (examples below); on nested loops
-      (`gNested`) the real evaluator does reuse such tables, its intermediate tables differ from
-      the pure evaluator's and only the final answers agree (Witness/C04.lean).
+      REAL evaluator at an index where `runQueriesChecked` gives the same answer, i.e. where the
+      check did not fire.  This covers every query on graphs whose loops are not nested
+      (examples below: a loop with an `if` inside, two loops in sequence — all 61 queries, 122
+      orders) and, on nested loops, the queries outside the outermost loop;
+    * `C04_history_validated`: the same conclusion for every answer of the REAL evaluator at an
+      index where `runQueriesExact` gives the same answer (translation validation; this
+      hypothesis does hold inside nested loops on every example evaluated so far).
+  (3) NOT PROVED: queries inside NESTED loops (`gNested` in Witness/C04.lean).  There the real
+      evaluator does reuse such tables, its intermediate tables differ from the pure evaluator's
+      and the final answers agree only observationally (98 orders x 49 queries by evaluation).
+      For them the property rests on the per-run comparison `runQueries = runQueriesExact`
+      (translation validation: by `C04_exact_history` an agreeing answer IS the pure one) and on
+      the real-code oracle search of harness/c04.py.
 -/
 import SuppModel.Flow.Lemmas
 
@@ -58,7 +74,7 @@ theorem C04_checked_history (g : Graph) (n : Nat) (qs : List Query) (i : Nat) (q
     (a : Option Val) (hq : qs[i]? = some q)
     (ha : (runQueriesChecked g n {} qs)[i]? = some (some a)) :
     ∃ n', lookupAt g n' q.flow q.pos q.key = some a :=
-  runQueriesChecked_sound g n qs {} (AllValid.empty g) rfl i q a hq ha
+  runQueriesWith_sound true g n qs {} (AllValid.empty g) rfl i q a hq ha
 
 /-- two histories of the checked evaluator agree on every query they share -/
 theorem C04_checked_two_histories (g : Graph) (n₁ n₂ : Nat) (qs₁ qs₂ : List Query) (i j : Nat)
@@ -72,8 +88,34 @@ theorem C04_checked_two_histories (g : Graph) (n₁ n₂ : Nat) (qs₁ qs₂ : L
 /-- where the checked evaluator answers a query, the real one, from the same state, gives the
     same table and reaches the same state: the checked evaluator only ever gives up -/
 theorem C04_checked_le (g : Graph) (n : Nat) (m m' : CMemo) (f : Nat) (pos : Pos) (t : Tbl)
-    (h : cNamesAt g n m f pos = some (m', t)) : mNamesAt g n m.erase f pos = some (m'.erase, t) :=
+    (h : cNamesAt true g n m f pos = some (m', t)) :
+    mNamesAt g n m.erase f pos = some (m'.erase, t) :=
   cNamesAt_le g n m m' f pos t h
+
+/-- the exact evaluator (recompute instead of giving up) gives the pure evaluator's answers, for
+    every graph and every history: the reference for the per-run comparison -/
+theorem C04_exact_history (g : Graph) (n : Nat) (qs : List Query) (i : Nat) (q : Query)
+    (a : Option Val) (hq : qs[i]? = some q)
+    (ha : (runQueriesExact g n {} qs)[i]? = some (some a)) :
+    ∃ n', lookupAt g n' q.flow q.pos q.key = some a :=
+  runQueriesWith_sound false g n qs {} (AllValid.empty g) rfl i q a hq ha
+
+/-- and it never gives up: it answers whenever the pure evaluator does (same fuel) -/
+theorem C04_exact_total (g : Graph) (n : Nat) (qs : List Query) (i : Nat) (q : Query)
+    (hq : qs[i]? = some q)
+    (hall : ∀ q' ∈ qs, (lookupAt g n q'.flow q'.pos q'.key).isSome) :
+    ((runQueriesExact g n {} qs)[i]?.bind id).isSome :=
+  runQueriesExact_total g n qs {} rfl hall i q hq
+
+/-- per-run translation validation: an answer of the real evaluator that the exact evaluator
+    reproduces is the pure evaluator's (this hypothesis can hold inside nested loops, where the
+    one of `C04_history_partial` does not) -/
+theorem C04_history_validated (g : Graph) (n : Nat) (qs : List Query) (i : Nat) (q : Query)
+    (a : Option Val)
+    (hval : (runQueriesExact g n {} qs)[i]? = (runQueries g n {} qs)[i]?)
+    (hq : qs[i]? = some q) (ha : (runQueries g n {} qs)[i]? = some (some a)) :
+    ∃ n', lookupAt g n' q.flow q.pos q.key = some a :=
+  C04_exact_history g n qs i q a hq (hval.trans ha)
 
 /-- HISTORY INDEPENDENCE, for every answer the checked evaluator confirms: whatever was queried
     before (any queries, any order, any number of times), such an answer of the memoised
@@ -159,10 +201,10 @@ example : ∀ q' ∈ [qA, qB, qC], (lookupAt exGraph 20 q'.flow q'.pos q'.key).i
 /-- the hypothesis of `C04_checked_le` is met, from the empty state and from the non-trivial state
     reached after `qB` (12 cache entries) -/
 example :
-    (cNamesAt exGraph 20 {} qB.flow qB.pos).isSome ∧
-    ((cNamesAt exGraph 20 {} qB.flow qB.pos).map (fun r => r.1.entries.length)) = some 12 ∧
-    ((cNamesAt exGraph 20 {} qB.flow qB.pos).bind
-      (fun r => cNamesAt exGraph 20 r.1 qC.flow qC.pos)).isSome := by
+    (cNamesAt true exGraph 20 {} qB.flow qB.pos).isSome ∧
+    ((cNamesAt true exGraph 20 {} qB.flow qB.pos).map (fun r => r.1.entries.length)) = some 12 ∧
+    ((cNamesAt true exGraph 20 {} qB.flow qB.pos).bind
+      (fun r => cNamesAt true exGraph 20 r.1 qC.flow qC.pos)).isSome := by
   decide +kernel
 
 /-- two loops in sequence (flow 1 / body 2 / back edge loop 1, then flow 3 / body 4 / back edge
@@ -193,10 +235,12 @@ example :
 def allQueries (nf : Nat) (names : List String) : List Query :=
   (List.range nf).flatMap (fun f => names.map (fun k => ⟨f, (9, 9), k⟩))
 
-/-- on history `qs`: the check never fires (hypothesis of the partial theorems, at every index)
-    and every answer is the pure evaluator's -/
+/-- on history `qs`: the check never fires (hypothesis of the partial theorems, at every index),
+    the exact evaluator agrees (hypothesis of `C04_history_validated`) and every answer is the
+    pure evaluator's -/
 def coveredAndPure (g : Graph) (fuel : Nat) (qs : List Query) : Bool :=
   runQueriesChecked g fuel {} qs == runQueries g fuel {} qs &&
+  runQueriesExact g fuel {} qs == runQueries g fuel {} qs &&
   runQueries g fuel {} qs == qs.map (fun q => lookupAt g fuel q.flow q.pos q.key)
 
 /-- all 25 queries of `exGraph` and all 36 of `exSeq`, asked in every rotation of the list and
